@@ -33,6 +33,7 @@ COMMON = ["-std=c99", "-fPIC", "-D_GNU_SOURCE", "-DLIBREBOUND", "-DSERVER",
 VARIANTS = {
     "opt": ("gcc", ["-O3", "-fstrict-aliasing"], []),
     "avx512": ("gcc", ["-O3", "-fstrict-aliasing", "-march=native", "-DAVX512"], []),
+    "dbg": ("gcc", ["-O1", "-g", "-fno-omit-frame-pointer"], []),
     "asan": ("clang", ["-O1", "-g", "-fno-omit-frame-pointer",
                        "-fsanitize=address,undefined", "-fno-sanitize-recover=undefined",
                        "-fno-sanitize=float-divide-by-zero"],
